@@ -11,6 +11,7 @@ from .. import flowcheck
 from .. import floworacle as fo
 from .. import floworacle_r3 as f3
 from .. import floworacle_r4 as f4
+from .. import floworacle_r5 as f5
 
 LEAN_MODULES = ['Props.C06', 'Props.Agreement', 'Props.Translated_C06']
 TRUSTED = ['harness/flow_impl.py (yaml renderer, canonicaliser, virtual clock, scripted random.uniform)',
@@ -45,7 +46,8 @@ def run(env, res):
         c06_backoff = None
     if c06_backoff is not None:
         c06_backoff.run_backoff(env, res)
-    directed = [('c06-when-evaluated', f4.c06_when_family, env.n(70, 100000)),
+    directed = [('c06-nested-error-classes', f5.c06_nested_errors_family, env.n(200, 100000)),
+                ('c06-when-evaluated', f4.c06_when_family, env.n(70, 100000)),
                 ('c06', fo.c06_family, env.n(400, 100000)), ('c06-retry-reentry', fo.c06_reentry_family, env.n(160, 100000)),
                 ('c06-max', fo.c06_max_family, env.n(120, 100000)), ('c06-fault', fo.c06_fault_family, env.n(90, 100000)),
                 ('c06-text', fo.c06_text_family, env.n(14, 100000)),
